@@ -137,10 +137,6 @@ func c09One(c *Ctx, b []byte, pieces [][]byte, how string, d c09Dest) {
 	class := ""
 	if !ok {
 		class = c09Class(b)
-		if class == "" && werr == nil && !stdjson.Valid(b) {
-			// Unmarshal itself accepted an invalid text (skip leniency, control bytes): C05's findings
-			class = "C05-skip-unvalidated"
-		}
 	}
 	c.Oracle("stream=buffer/"+d.name+"/"+how, fmt.Sprintf("%q", b),
 		fmt.Sprintf("one=%v %v err=%v", one, reflect.ValueOf(got).Elem().Interface(), gerr),
